@@ -2,7 +2,23 @@
 
 package nlp
 
+import "strings"
+
 // VerifTFIDFTokenize exposes the TF-IDF tokenizer. Not built without -tags verif.
 func VerifTFIDFTokenize(text string) []string {
 	return (&TFIDFSearcher{}).tokenize(text)
 }
+
+// VerifTables returns the word tables of the query processor (action words, target words, synonyms).
+func VerifTables() (actions, targets, synonyms map[string][]string) {
+	qp := NewQueryProcessor()
+	return qp.actionWords, qp.targetWords, qp.synonyms
+}
+
+// VerifWords returns the lower-cased words of a query after cleaning, as ProcessQuery sees them.
+func VerifWords(query string) []string {
+	return strings.Fields(strings.ToLower(NewQueryProcessor().cleanQuery(query)))
+}
+
+// VerifHints exposes the command hints of an analysis.
+func (pq *ProcessedQuery) VerifHints() []string { return pq.getCommandHints() }
